@@ -26,7 +26,7 @@ TRUSTED_BASE = C01.TRUSTED_BASE + [
     "in coca) is fixed by the harness and by the model with the same stable sort",
     "the re-analysis is done by the real passes in a fresh process over the bytes the refactoring left behind"]
 ASSUMPTIONS = ["strings.TrimSpace is modelled on the ASCII blanks (\\t \\n \\v \\f \\r and the blank): the rename file holds no other Unicode space around a name",
-               "method, class and package names are ASCII; type names are unique across packages; no nested types, no "
+               "class and package names are ASCII (method names, old and new, hold multi-byte letters and '$' in a fifth of the cases); type names are unique across packages; no nested types, no "
                "inheritance between generated types, no calls in field initialisers",
                "a call is attributed to the renamed method when it is receiver-less in the declaring class, or its receiver is "
                "the class name or a field / parameter / local whose declared type is the plain class name (imported or same "
@@ -44,23 +44,31 @@ OTHER_METHODS = ["run", "save", "find", "load", "check", "apply", "send", "reset
 ASCII_STRS = ['"s"', '"a.b()"', '"x -> y"', '""']
 NONASCII_STRS = ['"é"', '"中文"', '"naïve café"', '"ß→∑"', '"😀"', '"ü.old()"']
 
-def rand_ident(rng, n, taken):
+MB_LETTERS = "\u00f6\u00df\u00e9\u00fc\u53d6\u5f97\u03bb"      # legal Java letters of 2 and 3 bytes
+
+def rand_ident(rng, n, taken, multibyte=False):
     first = "abcdefghijklmnopqrstuvwxyz"
-    rest = first + first.upper() + "0123456789_"
+    rest = first + first.upper() + "0123456789_$"
     while True:
         s = rng.choice(first) + "".join(rng.choice(rest) for _ in range(n - 1))
+        if multibyte:
+            # some of the characters become multi-byte letters (the name keeps its number of CHARACTERS)
+            cs = list(s)
+            for i in rng.sample(range(len(cs)), rng.randint(1, max(1, len(cs) // 2))):
+                cs[i] = rng.choice(MB_LETTERS)
+            s = "".join(cs)
         if s not in KEYWORDS and s not in taken and s != "_":
             return s
 
 def name_pair(rng, mode, taken):
-    """(old, new) with byte lengths 1..20"""
+    """(old, new) with 1..20 characters"""
     lo = rng.choice([1, 1, 2, 3, 3, 4, 5, 6, 8, 10, 13, 17, 20]) if rng.random() < 0.6 else rng.randint(1, 20)
     if mode == "equal": ln = lo
     elif mode == "shorter": lo = max(lo, 2); ln = rng.randint(1, lo - 1)
     elif mode == "longer": lo = min(lo, 19); ln = rng.randint(lo + 1, 20)
     else: ln = rng.randint(1, 20)
-    old = rand_ident(rng, lo, taken)
-    new = rand_ident(rng, ln, taken | {old})
+    old = rand_ident(rng, lo, taken, multibyte=rng.random() < 0.2)
+    new = rand_ident(rng, ln, taken | {old}, multibyte=rng.random() < 0.2)
     return old, new
 
 class Opts:
